@@ -253,6 +253,9 @@ func propC04(c *Ctx) {
 	}
 	c.Check(re, "encoder.Float.MarshalBinary encodes the bit pattern", l.Pos(posOf(fm)), fm != nil && usesBits, "uses math.Float64bits", "Float codec not found or does not encode the bit pattern")
 
+	rpe := c.Rule("pool-escape", "no codec function returns bytes derived from an object it hands back to a sync.Pool: encoded data must own its storage", 1)
+	rulePoolEscape(c, rpe, l.RepoFuncs(func(pp string) bool { return pp == encPath }))
+
 	// ---- rebind ----------------------------------------------------------------------------
 	rr := c.Rule("rebind", "when a decoded module map is re-bound to the supplied builtin module, every item other than the module-name key reaches the assignment that replaces it (or an error return): no class of items is skipped", 1)
 	fix := l.Method(encPath, "Bytecode", "fixObjects")
